@@ -22,6 +22,7 @@ C01, T5 continued: operator semantics `OpSem (Vec ℝ)` that satisfy the two per
   is `linOp ns ms A` for a 0/1 (or scaled) matrix `A`; examples `sumMat`, `sliceMat`, `bcastMat`);
 * `bilin_curveLaw`, `bilin_adjointLaw`: every bilinear operator (matmul `matmulCoef`, conv2d,
   products with broadcasting);
+* `const_laws`: operators without arguments that return fixed values (Input, Constant, zeros, ones);
 * a composite `example`: `backward_is_gradient_of_forward` on `tanh((x₀ + x₁) · (x₀ + x₁))`.
 -/
 namespace Primitiv.Graph
@@ -408,6 +409,28 @@ example (x : Vec ℝ) : (linOp [5] [2] (sliceMat 3)).fwd [x]
   simp only [linOp, List.length_cons, List.length_nil, if_true, List.range_succ, List.range_zero, List.map_cons,
     List.map_nil, List.nil_append, Nat.zero_add, h]
 
+/-! ### constant operators -/
+
+/-- **Both laws of a constant operator** (Input, Constant, zeros, ones, identity): tangent 0, no
+contribution. -/
+theorem const_laws (vals : List (Vec ℝ)) (ms : List Nat) (ys : List (Vec ℝ)) :
+    CurveLawAt (constOp vals) [] ms (fun _ _ => []) [] ∧
+    AdjointLawAt (constOp vals) [] ms (fun _ _ => []) [] ys := by
+  constructor
+  · intro X T Y _ hlen _ _ hY j _ i _
+    have hy : ∀ ε, Y ε = vals := by
+      intro ε
+      have h := hY ε
+      have hx : X ε = [] := List.eq_nil_of_length_eq_zero (by simpa using hlen ε)
+      rw [hx] at h
+      exact (Option.some.inj h).symm
+    have hfun : (fun ε => (Y ε).getD j (fun _ => 0) i) = fun _ => vals.getD j (fun _ => 0) i := by
+      funext ε; rw [hy ε]
+    rw [hfun]
+    simpa using hasDerivAt_const (0 : ℝ) (vals.getD j (fun _ => 0) i)
+  · intro gys ts _ _
+    simp [listContrib, dot]
+
 /-! ### bilinear operators -/
 
 /-- **Curve law of every bilinear operator** `bilinOp na nb m B` (Leibniz rule), at every point. -/
@@ -480,5 +503,141 @@ theorem bilin_adjointLaw (na nb m : Nat) (B : Nat → Nat → Nat → ℝ) (a0 b
 `y[r + di·c] = Σ_t a[r + di·t] · b[t + dj·c]` -/
 def matmulCoef (di dj : Nat) : Nat → Nat → Nat → ℝ := fun j i i' =>
   if i % di = j % di ∧ i / di = i' % dj ∧ i' / dj = j / di then 1 else 0
+
+/-- 2 × 2 matrices: entry (1, 0) of the product is `a₁₀·b₀₀ + a₁₁·b₁₀` -/
+example (a b : Vec ℝ) : ((bilinOp 4 4 4 (matmulCoef 2 2)).fwd [a, b]).map (fun l => l.getD 0 (fun _ => 0) 1)
+    = some (a 1 * b 0 + a 3 * b 1) := by
+  simp [bilinOp, matmulCoef, sum_range_succ]
+
+/-! ### a composite graph: `tanh((x₀ + x₁) · (x₀ + x₁))`, parameter `x` of size 2 -/
+
+/-- operator 0: Parameter 0 (size 2); 1: sum of its elements (`linOp` with `sumMat`); 2: `n1 · n1`
+(`elemBinary` multiply); 3: `tanh n2` (the generated tanh kernels); nothing evaluated -/
+noncomputable def exComp : State (Vec ℝ) where
+  ops := [ { kind := .param 0, args := [], rets := [{ size := 2 }] },
+           { kind := .op (linOp [2] [1] sumMat), args := [⟨0, 0⟩], rets := [{ size := 1 }] },
+           { kind := .op (elemBinary (naive_multiply_fw realFns) (fun _ b _ g => g * b) (fun a _ _ g => g * a)),
+             args := [⟨1, 0⟩, ⟨1, 0⟩], rets := [{ size := 1 }] },
+           { kind := .op (elemUnary (naive_tanh_fw realFns) (naive_tanh_bw realFns)), args := [⟨2, 0⟩],
+             rets := [{ size := 1 }] } ]
+  params := { value := fun _ _ => 0, grad := fun _ _ => 10 }
+  sample := fun _ _ _ => 0
+
+/-- the Jacobian-vector products of its operators -/
+noncomputable def exCompJ : Nat → Jvp
+  | 1 => linJvp [2] [1] sumMat
+  | 2 => elemBinaryJvp (fun _ b => b) (fun a _ => a)
+  | _ => elemUnaryJvp (naive_tanh_fw realFns)
+
+/-- all hypotheses of `backward_is_gradient_of_forward` hold for `exComp`, for every base point `θ`
+and every direction `δ` of the parameter: `backward` on the un-evaluated graph succeeds and the
+increments of the parameter gradient are the directional derivative of the forward value -/
+example (θ δ : Vec ℝ) : ∃ s', backward (TVec ℝ) (exComp.withPValue fun _ i => θ i + 0 * δ i) ⟨3, 0⟩ = (s', .ok ()) ∧
+    HasDerivAt (fun ε : ℝ => Real.tanh ((θ 0 + ε * δ 0 + (θ 1 + ε * δ 1)) * (θ 0 + ε * δ 0 + (θ 1 + ε * δ 1))))
+      ((s'.params.grad 0 0 - 10) * δ 0 + (s'.params.grad 0 1 - 10) * δ 1) 0 := by
+  have exComp_wf : WF exComp := by
+    have h : exComp = run (TVec ℝ) (State.empty ⟨fun _ _ => 0, fun _ _ => 10⟩ fun _ _ _ => 0)
+        [.addOperator (.param 0) [] [2], .addOperator (.op (linOp [2] [1] sumMat)) [⟨0, 0⟩] [1],
+         .addOperator (.op (elemBinary (naive_multiply_fw realFns) (fun _ b _ g => g * b) (fun a _ _ g => g * a)))
+           [⟨1, 0⟩, ⟨1, 0⟩] [1],
+         .addOperator (.op (elemUnary (naive_tanh_fw realFns) (naive_tanh_bw realFns))) [⟨2, 0⟩] [1]] := rfl
+    rw [h]
+    refine run_wf _ (WF.empty _ _) _ ?_
+    intro op hop
+    simp only [List.mem_cons, List.not_mem_nil, or_false] at hop
+    rcases hop with rfl | rfl | rfl | rfl
+    · exact ⟨rfl, rfl⟩
+    · intro xs ys h
+      simp only [linOp] at h
+      split at h
+      · cases h; simp
+      · cases h
+    · intro xs ys h
+      match xs, h with
+      | [x, y], h => simp [elemBinary] at h; subst h; simp
+    · intro xs ys h
+      match xs, h with
+      | [x], h => simp [elemUnary] at h; subst h; simp
+  obtain ⟨s', hb, _, _, _, hd⟩ := backward_is_gradient_of_forward exComp ⟨3, 0⟩ (fun ε _ i => θ i + ε * δ i)
+    (fun ε => (forward (TVec ℝ) (exComp.withPValue fun _ i => θ i + ε * δ i) ⟨3, 0⟩).1)
+    1 (fun _ => 2) (fun _ => δ) exCompJ exComp_wf
+    (by
+      rintro k ⟨o, ho, n, hn, hv⟩
+      match k, ho with
+      | 0, ho => simp [exComp] at ho; subst ho; simp at hn; subst hn; simp at hv
+      | 1, ho => simp [exComp] at ho; subst ho; simp at hn; subst hn; simp at hv
+      | 2, ho => simp [exComp] at ho; subst ho; simp at hn; subst hn; simp at hv
+      | 3, ho => simp [exComp] at ho; subst ho; simp at hn; subst hn; simp at hv
+      | k + 4, ho => simp [exComp] at ho)
+    (allGradsInvalid_of_B rfl) rfl
+    (fun ε => ⟨_, rfl⟩)
+    (by
+      intro i o p _ ho hk
+      match i, ho with
+      | 0, ho =>
+        simp [exComp] at ho; subst ho
+        simp at hk; subst hk
+        exact ⟨by decide, rfl⟩
+      | 1, ho => simp [exComp] at ho; subst ho; simp at hk
+      | 2, ho => simp [exComp] at ho; subst ho; simp at hk
+      | 3, ho => simp [exComp] at ho; subst ho; simp at hk
+      | i + 4, ho => simp [exComp] at ho)
+    (by
+      intro p _ i _
+      have h := ((hasDerivAt_id' (0 : ℝ)).mul_const (δ i)).const_add (θ i)
+      simpa using h)
+    (by
+      intro k o sem _ ho hk
+      match k, ho with
+      | 0, ho => simp [exComp] at ho; subst ho; simp at hk
+      | 1, ho =>
+        simp [exComp] at ho; subst ho
+        simp only [Kind.op.injEq] at hk; subst hk
+        exact lin_curveLaw [2] [1] sumMat _
+      | 2, ho =>
+        simp [exComp] at ho; subst ho
+        simp only [Kind.op.injEq] at hk; subst hk
+        exact (multiply_laws 1 _ _).1
+      | 3, ho =>
+        simp [exComp] at ho; subst ho
+        simp only [Kind.op.injEq] at hk; subst hk
+        exact (tanh_laws 1 _).1
+      | k + 4, ho => simp [exComp] at ho)
+    (by
+      intro k o sem _ ho hk ys hys
+      match k, ho with
+      | 0, ho => simp [exComp] at ho; subst ho; simp at hk
+      | 1, ho =>
+        simp [exComp] at ho; subst ho
+        simp only [Kind.op.injEq] at hk; subst hk
+        exact lin_adjointLaw [2] [1] sumMat _ _
+      | 2, ho =>
+        simp [exComp] at ho; subst ho
+        simp only [Kind.op.injEq] at hk; subst hk
+        have hy := (Option.some.inj hys).symm
+        subst hy
+        exact (multiply_laws 1 _ _).2
+      | 3, ho =>
+        simp [exComp] at ho; subst ho
+        simp only [Kind.op.injEq] at hk; subst hk
+        have hy := (Option.some.inj hys).symm
+        subst hy
+        exact (tanh_laws 1 _).2
+      | k + 4, ho => simp [exComp] at ho)
+  refine ⟨s', hb, ?_⟩
+  have hsz : exComp.sizeAt ⟨3, 0⟩ = 1 := rfl
+  have hfun : (fun ε : ℝ => ∑ i ∈ range (exComp.sizeAt ⟨3, 0⟩),
+        ((forward (TVec ℝ) (exComp.withPValue fun _ i => θ i + ε * δ i) ⟨3, 0⟩).1).valAt ⟨3, 0⟩ i)
+      = fun ε : ℝ => Real.tanh ((θ 0 + ε * δ 0 + (θ 1 + ε * δ 1)) * (θ 0 + ε * δ 0 + (θ 1 + ε * δ 1))) := by
+    funext ε
+    rw [hsz, sum_range_one]
+    show naive_tanh_fw realFns (naive_multiply_fw realFns
+        (linApply [2] sumMat [fun i => θ i + ε * δ i] 0 0) (linApply [2] sumMat [fun i => θ i + ε * δ i] 0 0)) = _
+    simp [naive_tanh_fw, naive_multiply_fw, linApply, sum2, sumMat, sum_range_succ]
+  have hval : (∑ p ∈ range 1, dot 2 (fun i => s'.params.grad p i - exComp.params.grad p i) δ)
+      = (s'.params.grad 0 0 - 10) * δ 0 + (s'.params.grad 0 1 - 10) * δ 1 := by
+    simp [dot, exComp, sum_range_succ]
+  rw [hfun, hval] at hd
+  exact hd
 
 end Primitiv.Graph
